@@ -77,3 +77,102 @@ func genAlloc(run *vlib.Run, r *vlib.Rand, tier string) {
 		}
 	}
 }
+
+// craftedPredefined builds a minimal simple font with nGlyphs empty glyphs
+// that uses predefined charset id (0 ISOAdobe, 1 Expert, 2 ExpertSubset) and
+// an empty Private DICT.
+func craftedPredefined(id, nGlyphs int) []byte {
+	idx := cff.VerifC13EncodeIndex
+	hdr := []byte{1, 0, 4, 1}
+	name := idx([][]byte{[]byte("X")})
+	str := idx(nil)
+	gsub := idx(nil)
+	glyphs := make([][]byte, nGlyphs)
+	for i := range glyphs {
+		glyphs[i] = []byte{14}
+	}
+	cs := idx(glyphs)
+	var top []byte
+	for it := 0; it < 6; it++ {
+		csOff := len(hdr) + len(name) + len(idx([][]byte{top})) + len(str) + len(gsub)
+		d := map[uint16][]interface{}{
+			17: {int32(csOff)},
+			18: {int32(0), int32(4)},
+		}
+		if id != 0 {
+			d[15] = []interface{}{int32(id)}
+		}
+		top = cff.VerifC13EncodeDict(d, nil)
+	}
+	var out []byte
+	for _, b := range [][]byte{hdr, name, idx([][]byte{top}), str, gsub, cs} {
+		out = append(out, b...)
+	}
+	return out
+}
+
+// Appendix C of the specification, as SID ranges.
+var specPredefined = [3][][2]int{
+	{{0, 228}},
+	{{0, 1}, {229, 238}, {13, 15}, {99, 99}, {239, 248}, {27, 28}, {249, 266}, {109, 110}, {267, 318}, {158, 158}, {155, 155}, {163, 163}, {319, 326}, {150, 150}, {164, 164}, {169, 169}, {327, 378}},
+	{{0, 1}, {231, 232}, {235, 238}, {13, 15}, {99, 99}, {239, 248}, {27, 28}, {249, 251}, {253, 266}, {109, 110}, {267, 270}, {272, 272}, {300, 302}, {305, 305}, {314, 315}, {158, 158}, {155, 155}, {163, 163}, {320, 326}, {150, 150}, {164, 164}, {169, 169}, {327, 346}},
+}
+
+func init() {
+	// charset-predef id nGlyphs : glyph names (as SIDs) cff.Read gives a font
+	// that uses a predefined charset
+	kinds["charset-predef"] = func(items []vlib.Sx) (result, error) {
+		if len(items) != 2 {
+			return result{}, fmt.Errorf("charset-predef: want 2 arguments")
+		}
+		id, err := vlib.AsInt(items[0])
+		if err != nil || id < 0 || id > 2 {
+			return result{}, fmt.Errorf("charset-predef: bad id")
+		}
+		n, err := vlib.AsInt(items[1])
+		if err != nil || n < 1 || n > 2000 {
+			return result{}, fmt.Errorf("charset-predef: bad glyph count")
+		}
+		data := craftedPredefined(id, n)
+		var f *cff.Font
+		var rerr error
+		if p, what := safely(func() { f, rerr = cff.Read(bytes.NewReader(data)) }); p {
+			return result{impl: "panic", fail: "cff.Read: " + what, sig: "c13-font-read-panic"}, nil
+		}
+		var want []int
+		for _, rg := range specPredefined[id] {
+			for s := rg[0]; s <= rg[1]; s++ {
+				want = append(want, s)
+			}
+		}
+		if rerr != nil {
+			res := result{impl: "err"}
+			if n <= len(want) {
+				res.fail, res.sig = "cff.Read rejects a font with a predefined charset: "+rerr.Error(), "c13-charset-predefined"
+			}
+			return res, nil
+		}
+		sids := make([]int, len(f.Glyphs))
+		for i, g := range f.Glyphs {
+			s, ok := sidOf(g.Name, 0)
+			if !ok {
+				s = -1
+			}
+			sids[i] = s
+		}
+		res := result{impl: vlib.Str(vlib.L(vlib.Atom("ok"), vlib.Ints(sids)))}
+		if n > len(want) || !equalInts(sids, want[:n]) {
+			res.fail, res.sig = "glyph names of a predefined charset differ from Appendix C of the specification", "c13-charset-predefined"
+		}
+		return res, nil
+	}
+}
+
+func genPredefined(run *vlib.Run, r *vlib.Rand, tier string) {
+	lens := [3]int{229, 166, 87}
+	for id := 0; id < 3; id++ {
+		for _, n := range []int{1, 2, lens[id] - 1, lens[id], lens[id] + 1, r.Range(1, lens[id])} {
+			emit(run, vlib.Line(vlib.Atom("charset-predef"), vlib.Int(id), vlib.Int(n)), true, "charset-predef")
+		}
+	}
+}
